@@ -146,6 +146,22 @@ theorem init_inv (cap : Nat) : Inv cap [] := ⟨Nat.zero_le _, by simp [keys]⟩
 theorem newCap_pos (c : Int) : 0 < newCap c := by
   unfold newCap; split <;> omega
 
+/-- **end to end from the constructor**: whatever capacity argument `NewLRUClientSessionCache`
+is given (also 0 or negative: the default 64 applies), every history from the fresh cache behaves
+as the bounded LRU map of that effective capacity and never holds more than that many entries —
+the hypotheses of `lru_refines`/`lru_bounded` are discharged, nothing is assumed. -/
+theorem lru_from_constructor (c : Int) (ops : List Op) :
+    run (cstep (newCap c)) [] ops = run (astep (newCap c)) [] ops ∧
+    (run (cstep (newCap c)) [] ops).1.length ≤ newCap c ∧
+    (keys (run (cstep (newCap c)) [] ops).1).Nodup :=
+  ⟨lru_refines _ (newCap_pos c) ops [] (init_inv _),
+   (lru_bounded _ (newCap_pos c) ops [] (init_inv _)).1,
+   (lru_bounded _ (newCap_pos c) ops [] (init_inv _)).2⟩
+
+/-- the effective capacity is the argument when it is at least 1 and 64 otherwise. -/
+theorem newCap_spec (c : Int) : (1 ≤ c → (newCap c : Int) = c) ∧ (c < 1 → newCap c = 64) := by
+  unfold newCap; constructor <;> intro h <;> split <;> omega
+
 /-- `Put(k, nil)` deletes: afterwards `Get(k)` misses, whatever the state. -/
 theorem put_nil_deletes (cap : Nat) (es : Entries) (k : Nat) :
     (cget (cput cap es k none) k).2 = none := by
